@@ -70,11 +70,11 @@ fn any_hash<const N: usize>() -> Hash<N> {
 rt!(c06_t_rational_8_8, RationalNumber, 24, RationalNumber { numerator: u64_in(8), denominator: u64_in(8) }, |a, b| a.numerator == b.numerator && a.denominator == b.denominator);
 rt!(c06_t_rational_0_1, RationalNumber, 24, RationalNumber { numerator: u64_in(0), denominator: u64_in(1) }, |a, b| a.numerator == b.numerator && a.denominator == b.denominator);
 rt!(c06_t_rational_2_4, RationalNumber, 24, RationalNumber { numerator: u64_in(2), denominator: u64_in(4) }, |a, b| a.numerator == b.numerator && a.denominator == b.denominator);
-rt!(c06_t_exunits_8_4, ExUnits, 24, ExUnits { mem: u64_in(8), steps: u64_in(4) }, |a, b| a.mem == b.mem && a.steps == b.steps);
-rt!(c06_t_exunits_0_2, ExUnits, 24, ExUnits { mem: u64_in(0), steps: u64_in(2) }, |a, b| a.mem == b.mem && a.steps == b.steps);
+rt!(c06_x_exunits_8_4, ExUnits, 24, ExUnits { mem: u64_in(8), steps: u64_in(4) }, |a, b| a.mem == b.mem && a.steps == b.steps);
+rt!(c06_x_exunits_0_2, ExUnits, 24, ExUnits { mem: u64_in(0), steps: u64_in(2) }, |a, b| a.mem == b.mem && a.steps == b.steps);
 // bound: 32-byte hash symbolic (compared at a symbolic index), index symbolic in a concrete head class; unwind 6
-rt!(c06_t_txin_2, TransactionInput, 48, TransactionInput { transaction_id: any_hash(), index: u64_in(2) }, |a, b| a.index == b.index && hash_eq(&a.transaction_id, &b.transaction_id));
-rt!(c06_t_txin_8, TransactionInput, 48, TransactionInput { transaction_id: any_hash(), index: u64_in(8) }, |a, b| a.index == b.index && hash_eq(&a.transaction_id, &b.transaction_id));
+rt!(c06_x_txin_2, TransactionInput, 48, TransactionInput { transaction_id: any_hash(), index: u64_in(2) }, |a, b| a.index == b.index && hash_eq(&a.transaction_id, &b.transaction_id));
+rt!(c06_x_txin_8, TransactionInput, 48, TransactionInput { transaction_id: any_hash(), index: u64_in(8) }, |a, b| a.index == b.index && hash_eq(&a.transaction_id, &b.transaction_id));
 // bound: variant concrete, 28-byte hash symbolic; unwind 6
 rt!(c06_q_stakecred_key, StakeCredential, 40, StakeCredential::AddrKeyhash(any_hash()), |a, b| matches!((a, b), (StakeCredential::AddrKeyhash(x), StakeCredential::AddrKeyhash(y)) if hash_eq(x, y)));
 rt!(c06_q_stakecred_script, StakeCredential, 40, StakeCredential::ScriptHash(any_hash()), |a, b| matches!((a, b), (StakeCredential::ScriptHash(x), StakeCredential::ScriptHash(y)) if hash_eq(x, y)));
@@ -89,7 +89,7 @@ rt!(c06_t_voter_cc_key, Voter, 40, Voter::ConstitutionalCommitteeKey(any_hash())
 rt!(c06_t_voter_drep_script, Voter, 40, Voter::DRepScript(any_hash()), |a, b| matches!((a, b), (Voter::DRepScript(x), Voter::DRepScript(y)) if hash_eq(x, y)));
 rt!(c06_t_voter_drep_key, Voter, 40, Voter::DRepKey(any_hash()), |a, b| matches!((a, b), (Voter::DRepKey(x), Voter::DRepKey(y)) if hash_eq(x, y)));
 rt!(c06_q_voter_pool, Voter, 40, Voter::StakePoolKey(any_hash()), |a, b| matches!((a, b), (Voter::StakePoolKey(x), Voter::StakePoolKey(y)) if hash_eq(x, y)));
-rt!(c06_t_govactionid, GovActionId, 48, GovActionId { transaction_id: any_hash(), action_index: u64_in(4) as u32 }, |a, b| a.action_index == b.action_index && hash_eq(&a.transaction_id, &b.transaction_id));
+rt!(c06_x_govactionid, GovActionId, 48, GovActionId { transaction_id: any_hash(), action_index: u64_in(4) as u32 }, |a, b| a.action_index == b.action_index && hash_eq(&a.transaction_id, &b.transaction_id));
 rt!(c06_q_vote, Vote, 8, { let k: u8 = kani::any(); match k { 0 => Vote::No, 1 => Vote::Yes, _ => Vote::Abstain } }, |a, b| a == b);
 
 fn int_in(class: u8) -> (Int, i128) {
@@ -99,11 +99,11 @@ fn int_in(class: u8) -> (Int, i128) {
     (Int::try_from(v).unwrap(), v)
 }
 // bound: Metadatum::Int over the whole CBOR integer range -2^64..2^64-1, one harness per head class, sign symbolic; unwind 6
-rt!(c06_t_metadatum_int_0, Metadatum, 16, Metadatum::Int(int_in(0).0), |a, b| matches!((a, b), (Metadatum::Int(x), Metadatum::Int(y)) if i128::from(*x) == i128::from(*y)));
-rt!(c06_t_metadatum_int_1, Metadatum, 16, Metadatum::Int(int_in(1).0), |a, b| matches!((a, b), (Metadatum::Int(x), Metadatum::Int(y)) if i128::from(*x) == i128::from(*y)));
-rt!(c06_t_metadatum_int_2, Metadatum, 16, Metadatum::Int(int_in(2).0), |a, b| matches!((a, b), (Metadatum::Int(x), Metadatum::Int(y)) if i128::from(*x) == i128::from(*y)));
-rt!(c06_t_metadatum_int_4, Metadatum, 16, Metadatum::Int(int_in(4).0), |a, b| matches!((a, b), (Metadatum::Int(x), Metadatum::Int(y)) if i128::from(*x) == i128::from(*y)));
-rt!(c06_t_metadatum_int_8, Metadatum, 16, Metadatum::Int(int_in(8).0), |a, b| matches!((a, b), (Metadatum::Int(x), Metadatum::Int(y)) if i128::from(*x) == i128::from(*y)));
+rt!(c06_x_metadatum_int_0, Metadatum, 16, Metadatum::Int(int_in(0).0), |a, b| matches!((a, b), (Metadatum::Int(x), Metadatum::Int(y)) if i128::from(*x) == i128::from(*y)));
+rt!(c06_x_metadatum_int_1, Metadatum, 16, Metadatum::Int(int_in(1).0), |a, b| matches!((a, b), (Metadatum::Int(x), Metadatum::Int(y)) if i128::from(*x) == i128::from(*y)));
+rt!(c06_x_metadatum_int_2, Metadatum, 16, Metadatum::Int(int_in(2).0), |a, b| matches!((a, b), (Metadatum::Int(x), Metadatum::Int(y)) if i128::from(*x) == i128::from(*y)));
+rt!(c06_x_metadatum_int_4, Metadatum, 16, Metadatum::Int(int_in(4).0), |a, b| matches!((a, b), (Metadatum::Int(x), Metadatum::Int(y)) if i128::from(*x) == i128::from(*y)));
+rt!(c06_x_metadatum_int_8, Metadatum, 16, Metadatum::Int(int_in(8).0), |a, b| matches!((a, b), (Metadatum::Int(x), Metadatum::Int(y)) if i128::from(*x) == i128::from(*y)));
 // bound: Metadatum::Bytes of 3 symbolic bytes; unwind 6
 rt!(c06_q_metadatum_bytes3, Metadatum, 16, { let b: [u8; 3] = kani::any(); Metadatum::Bytes(b.to_vec().into()) }, |a, b| matches!((a, b), (Metadatum::Bytes(x), Metadatum::Bytes(y)) if x.len() == 3 && y.len() == 3 && x[0] == y[0] && x[1] == y[1] && x[2] == y[2]));
 
